@@ -125,7 +125,7 @@ def run(chk):
     }
     ops, metas = [], []
     prev = None
-    n_tab = 16 if not thorough else 160
+    n_tab = 24 if not thorough else 160
     flip_plan = []
     for t in range(n_tab):
         if flip_plan:
@@ -135,20 +135,42 @@ def run(chk):
         forced = {0: "swap", 2: "chain", 4: "swap", 6: "chain", 8: "multi"}.get(t)      # every run sees each mapper shape
         if forced:
             use = sorted(set(use) | {"CDR3A", "CDR3B", "TRBV"}, key=std_cols.index)
-        nrow = rng.randint(1, 6)
+        if t in (16, 18, 20):
+            # every run: tables holding only PART of the standard columns - gene / MHC columns of a chain without its CDR3 column
+            use = [[c for c in std_cols if c not in ("CDR3A", "CDR3B")], ["TRAV", "TRAJ", "MHCA", "CDR3B", "TRBV"], ["TRBJ", "MHCB", "Epitope", "TRAV"]][(t - 16) // 2]
+        nrow = rng.randint(1, 6) if t < 16 else rng.randint(3, 6)
         data = {c: [rng.choice(values[c]) for _ in range(nrow)] for c in use}
+        if t in (10, 12, 14) and not forced:
+            # every run: cells of ONE column that differ only in letter case or in surrounding blanks - each cell is standardised on its
+            # own (tidytcells treats 'pp65' / 'PP65' and 'CASSF' / 'CASSF ' differently), whatever else the column holds and in any row order
+            nrow = 4
+            use = sorted(set(use) | {"Epitope", "CDR3B", "CDR3A"}, key=std_cols.index)
+            data = {c: [rng.choice(values[c]) for _ in range(nrow)] for c in use}
+            ep, cb3, ca3 = ["pp65", "PP65", "pp65 ", "Pp65"], ["CASSF", "CASSF ", " CASSF", "cassf"], ["CAVRF ", "CAVRF", "cavrf", "CAVRF"]
+            if t != 10:
+                ep, cb3, ca3 = ep[::-1], cb3[::-1], ca3[::-1]
+            data["Epitope"], data["CDR3B"], data["CDR3A"] = ep, cb3, ca3
         data["clone_count"] = [rng.randint(1, 9) for _ in range(nrow)]
         data["note"] = [rng.choice(["x", None, "TRAV1-1*01"]) for _ in range(nrow)]
         # missing cells come as None, float NaN or pandas' NA (object columns holding pd.NA; nullable "string" columns)
         na_kind = rng.choice(["none", "none", "pd.NA", "string-dtype"])
+        if t in (16, 18, 20, 22):
+            na_kind = ("pd.NA", "string-dtype", "none", "pd.NA")[(t - 16) // 2]        # every run: each kind of missing-cell marker
+            if t in (18, 22):
+                # ... and a missing cell in every standard column present
+                for c in use:
+                    data[c][0] = None
         if na_kind == "pd.NA":
             data = {c: [pd.NA if v is None else v for v in vals] for c, vals in data.items()}
         # row labels: unique in any order, or repeated (tables concatenated without ignore_index) - cells are cells either way
         idx = rng.sample(range(100), nrow) if rng.random() < 0.65 else [rng.randrange(max(1, nrow // 2)) for _ in range(nrow)]
         df = pd.DataFrame(data, index=idx)
         if na_kind == "string-dtype":
-            for c in rng.sample(use, rng.randint(1, len(use))):
+            for c in (rng.sample(use, rng.randint(1, len(use))) if t != 18 else use):
                 df[c] = df[c].astype("string")
+        if t == 22:
+            for c in use:                      # object columns that really hold pd.NA (a plain text column would store it as NaN)
+                df[c] = pd.Series(list(data[c]), index=df.index, dtype=object)
         mapper = None
         mk = {"swap": 0.5, "chain": 0.6, "multi": 0.75}.get(forced, rng.random())
         if mk < 0.4 and use:
@@ -171,6 +193,8 @@ def run(chk):
                     tcr_enforce_functional=rng.random() < 0.5, tcr_precision=rng.choice(["gene", "allele"]),
                     mhc_precision=rng.choice(["gene", "protein", "allele"]), strict_cdr3_standardization=rng.random() < 0.5,
                     suppress_warnings=True)
+        if t in (10, 12, 14, 16, 18, 20, 22):
+            opts["standardize"] = True            # (the forced tables above are about what standardisation does)
         if t % 2 == 1 and prev is not None:
             df, mapper, prev_opts = prev
             df = df.copy(deep=True)
@@ -277,8 +301,12 @@ def run(chk):
             # every run: a call with an explicit join kind is followed by a call WITHOUT one (the default is the outer join, whatever came before)
             how = ("inner", None, "left", None, "right", None, "inner", None)[it - 8]
         mode = rng.choice(["column", "index", "suffix-column", "suffix-index"])
+        if 16 <= it < 22:
+            mode = "suffix-column"                 # every run: each form of `suffixes` (see below)
+        elif it in (22, 23):
+            mode = "suffix-index"                  # every run: suffixes with the key in the index (and a data column called "index")
         kw = {} if how is None else {"how": how}
-        if mode.startswith("suffix") and rng.random() < 0.35:
+        if mode.startswith("suffix") and (rng.random() < 0.35 or it in (20, 22)):
             # a data column that happens to be called "index" (what reset_index() leaves behind) is a data column like any other
             dfs = [d.rename(columns={"val": "index"}) for d in dfs]
         snap = [d.copy(deep=True) for d in dfs]
@@ -292,7 +320,13 @@ def run(chk):
             real = core.call_real(lambda: io.multimerge(dfs2, "index", **kw))
             named = dfs2
         elif mode == "suffix-column":
-            real = core.call_real(lambda: io.multimerge(dfs, "key", suffixes=suffixes, **kw))
+            # the suffixes as any iterable of names: a list, a tuple, the key view of a dict of tables, the dict itself, a generator
+            sform = ("list", "keys", "tuple", "dict", "generator", "map")[it % 6]
+            sdict = {s_: None for s_ in suffixes}
+            sgiven = {"list": list(suffixes), "tuple": tuple(suffixes), "keys": sdict.keys(), "dict": sdict,
+                      "generator": (s_ for s_ in suffixes), "map": map(str, suffixes)}[sform]
+            chk.count("multimerge:suffixes-as-" + sform)
+            real = core.call_real(lambda: io.multimerge(dfs, "key", suffixes=sgiven, **kw))
             named = [d.set_index("key").add_suffix("_" + s) for d, s in zip(dfs, suffixes)]
         else:
             dfs2 = [d.set_index("key") for d in dfs]
